@@ -282,7 +282,7 @@ def serialize_contract(lang, t, module_rel: str, cls_path: str, shape: typing.Op
         ens.append(("message-bytes-are-exactly-the-specified-encoding", f"smt('Bool', '(= {le_sum('{' + str(iN) + '}', '{' + str(iB) + '}', m)} {enc})', {arglist})"))
     else:
         ens.append(("buffer-untouched", "smt('Bool', '(= {0} {1})', _ser_._buf.arr, old(_ser_._buf.arr))"))
-    c = Contract(target=f"{MOD.format(module_rel)}:{cls_path}._serialize_", params={"self": p.fields, "_ser_": serializer_spec()},
+    c = Contract(target=f"{MOD.format(module_rel)}:{cls_path}._serialize_", params={"self": p.fields, "_ser_": serializer_spec()}, timeout=300,
                  requires=pre, ensures=ens, modifies=["_ser_._bit_offset", "_ser_._buf.arr"], label=str(t) + shape_label(p.shape), decls=list(FLOAT_DECLS) if p.uses_float else [])
     c.after_call = None  # type: ignore
 
@@ -783,7 +783,7 @@ def deserialize_contract(lang, t, module_rel: str, cls_path: str, shape: dict, i
     label = str(t) + shape_label(shape) + (f"!invalid@{invalid[5:] if invalid.startswith('self.') else invalid}" if invalid else "")
     decls = list(FLOAT_DECLS) + DES_DECLS
     if invalid:
-        c = Contract(target=f"{MOD.format(module_rel)}:{cls_path}._deserialize_", params={"_des_": deserializer_spec()}, requires=pre,
+        c = Contract(target=f"{MOD.format(module_rel)}:{cls_path}._deserialize_", params={"_des_": deserializer_spec()}, requires=pre, timeout=300,
                      raises=[epy.Raises("FormatError", "True")], ensures=[], modifies=["_des_._bit_offset"], label=label, decls=decls)
         return c, p
     ens = [("cursor-advances-by-the-decoded-length", f"_des_._bit_offset == old(_des_._bit_offset) + {p.bits}"),
@@ -798,7 +798,7 @@ def deserialize_contract(lang, t, module_rel: str, cls_path: str, shape: dict, i
         else:
             body = tmpl.replace("{r}", "{3}")
         ens.append((f"{ref}#{i}-is-the-specified-value-of-the-zero-extended-input", f"smt('Bool', '{with_z(body)}', {base_args}{B}, {ref})"))
-    c = Contract(target=f"{MOD.format(module_rel)}:{cls_path}._deserialize_", params={"_des_": deserializer_spec()}, requires=pre, ensures=ens,
+    c = Contract(target=f"{MOD.format(module_rel)}:{cls_path}._deserialize_", params={"_des_": deserializer_spec()}, requires=pre, ensures=ens, timeout=300,
                  modifies=["_des_._bit_offset"], label=label, decls=decls, result=None)
 
     def after(it):
